@@ -30,7 +30,9 @@ type c17World struct {
 func newC17World(idseed uint64, kinds []sim.Kind) (*c17World, error) {
 	sim.SeedIDs(idseed)
 	knownCUIDs = map[string]bool{}
-	env, err := cluster.New(cluster.Options{})
+	opts := l1Deploy
+	l1Deploy = cluster.Options{}
+	env, err := cluster.New(opts)
 	if err != nil {
 		return nil, err
 	}
@@ -170,6 +172,7 @@ func TestC17(t *testing.T) {
 			"oracle: after every request the canonical partition (clients, datatypes, operations, snapshots with that collection number, the collection document, the user collection) of every collection NOT addressed is unchanged; foreign requests are refused and change nothing at all; collection numbers are pairwise distinct; "+
 			"the same key in two collections has two datatype ids and each converges to its own refmodel(log); after ResetCollection nothing with the old number remains and the others are unchanged; "+
 			"non-trivial = >=2 collections hold a datatype with stored operations under the same key and >=1 foreign request or reset happened after that; distinct = hash of the action sequence")
+	col.Assume(deploymentNote)
 	checkProp(t, "C17", col, func(c *caseCtx) {
 		rt := c.rt
 		kinds := []sim.Kind{kindFromDraw(rt)}
@@ -178,12 +181,13 @@ func TestC17(t *testing.T) {
 		}
 		idseed := rapid.Uint64Range(1, 1<<40).Draw(rt, "idseed")
 		patchesHappened = false
+		dep := drawDeployment(rt)
 		cw, err := newC17World(idseed, kinds)
 		if err != nil {
 			c.failf("HARNESS-ERROR: %v", err)
 		}
 		defer cw.env.Close()
-		c.j.Header = map[string]interface{}{"kinds": kinds, "id_seed": idseed}
+		c.j.Header = map[string]interface{}{"kinds": kinds, "id_seed": idseed, "deployment": dep}
 		var canon strings.Builder
 		step := func(desc string, f func() error) {
 			c.j.add(desc)
@@ -478,7 +482,7 @@ func TestC17(t *testing.T) {
 		if u := cw.env.Mongo.UnknownCommands(); len(u) > 0 {
 			c.failf("HARNESS-ERROR: unknown commands %v", u)
 		}
-		var labels []string
+		labels := []string{dep}
 		if sharedBoth {
 			labels = append(labels, "same-key-populated-in-2-collections")
 		}
